@@ -84,6 +84,10 @@ class Prop(PropBase):
             y = np.asfortranarray(y)                 # same values, column-major buffer
         elif case["seed"] % 3 == 2:
             y = np.repeat(y, 2, axis=0)[::2]          # same values through a strided view
+        if case["seed"] % 7 in (1, 4) and y.dtype.itemsize > 1:
+            y = y.astype(y.dtype.newbyteorder("S"))  # same values in the other byte order (big-endian dumps, FITS)
+        elif case["seed"] % 7 == 2:
+            y = np.ascontiguousarray(y[::-1])[::-1]   # same values through a negative stride
         return y, ax
 
     def run_code(self, case):
